@@ -239,6 +239,35 @@ def run(ctx):
             alle = bool(wcal & {"get_all_edges", "get_edges_for_node"})
             ctx.require(both or alle, "R-C13-6", "both-directions", "the neighbour-community weights are built from outgoing and incoming edges", "the neighbour-community weights are built from %s only: on a directed graph the incoming edges of a node are ignored, the maximised quantity is not the modularity change and the local-move loop has no monotone potential (it can run forever, e.g. on two directed 3-cycles joined by one edge)" % sorted(wcal & {"get_successors_map", "get_predecessors_map", "get_successor_nodes", "get_predecessor_nodes"}), loc_str(t.span))
 
+    # ------------------------------------------------------------------ R-C13-9
+    # the graph of communities must carry ALL the weight of the level below (also the self-loops that stand for the
+    # weight inside a community): its edges are accumulated in one pass over the stored edges, each visited once
+    ctx.rule("R-C13-9", "generate_graph accumulates the community edges in a loop over get_all_edges() (every stored edge once), not by walking adjacency sets")
+    from hashord import natural_loop_blocks as _nlb
+
+    gg = prog.one("louvain::generate_graph")
+    gf = flows.of(gg)
+    adds9 = [t for t in gg.calls() if t.callee and t.callee.short.endswith("Graph::add_edge")]
+    n9 = 0
+    for t in adds9:
+        loops9 = []
+        for nx in gg.calls():
+            if nx.callee and nx.callee.short == "std::iter::Iterator::next":
+                lb = _nlb(gg, nx.bb)
+                if t.bb in lb and len(lb) > 1:
+                    loops9.append((len(lb), nx))
+        if not loops9:
+            ctx.violation("R-C13-9", "edge-loop", "the add_edge call of generate_graph is not inside a loop", loc_str(t.span))
+            continue
+        n9 += 1
+        cal9 = set()
+        for (_, nx) in loops9:
+            sl9 = gf.slice_local(gf._op_reads(nx.args[0]), data_only=True)
+            cal9 |= {gg.blocks[n_[1]].term.callee.short.split("::")[-1] for n_ in sl9 if n_[0] == "CALL" and gg.blocks[n_[1]].term.callee}
+        adj9 = sorted(cal9 & {"get_successors_map", "get_predecessors_map", "get_successor_nodes", "get_predecessor_nodes", "get_neighbor_nodes", "get_successor_node_names", "get_predecessor_node_names", "get_successors_or_neighbors", "get_successor_nodes_by_index", "get_predecessor_nodes_by_index", "get_edges_for_node", "get_out_edges_for_node", "get_in_edges_for_node", "get_all_nodes", "get_all_node_names"})
+        ctx.require("get_all_edges" in cal9 and not adj9, "R-C13-9", "edge-loop", "the community edges are accumulated over get_all_edges()",
+                    "generate_graph enumerates the member edges through %s instead of one pass over get_all_edges(): an adjacency walk sees an undirected edge from both ends and a self-loop once, so it needs a skip rule -- and a wrong one loses weight (e.g. the self-loops that carry a community's internal weight), after which the gains of the next level are computed from totals that are too small and modularity can decrease" % (adj9 or sorted(cal9)[:5]), loc_str(t.span))
+    ctx.floor("R-C13-9", "community_edge_loops", n9, 1)
     # ------------------------------------------------------------------ R-C13-8
     from engines import check_unwrapped_callee_kinds
 
